@@ -103,3 +103,39 @@ reg("C13", rank.check_C13, "other",
     "category definition; or_rank_bits/and_bits as bit formulas; deprecated twins have the same normal form; category "
     "tables pinned by the same oracle (T).",
     "bit-level factorisation + fold over the 13-bit rank-mask domain", "5-C13")
+
+reg("C02", rank.check_C02, "other",
+    "Static: 5-of-6 / 5-of-7 tables complete (vs combination oracle); the candidate loop analysed as a transformer over "
+    "symbolic loop-carried state: iterates the whole table, no exit before exhaustion, ranks exactly the selected candidate "
+    "with the five-card evaluation, keeps the smallest non-zero value (decision table over the order types of best/candidate), "
+    "starts from 0, returns the running best; slot selection by provenance; candidates ranked per C01's premises.",
+    "loop-body transformer rule + table completeness + C01 premises", "5-C02")
+reg("C03", rank.check_C03, "other",
+    "Static: joint-update rule on the loop transformer (the remembered hand changes exactly when the best value does, to "
+    "the very candidate that was ranked), the result is the remembered hand under a descending sort (folded over all 541 "
+    "order patterns), five-card ranking returns its receiver by node identity, and slot symmetry of the five-card value (F).",
+    "loop-body transformer rule (joint update) + provenance + fold over order patterns", "5-C03")
+reg("C04", rank.check_C04, "other",
+    "Static: card filter as a cell table over all 2^32 words; is_corrupt is an OR over exactly the slots of `filter(slot) "
+    "== BLANK`; is_valid truth table; are_unique of all six sizes shown comparison-only and folded over every equality / "
+    "order pattern; validity gate of the three validated rankings and the free function by decision table; panic sites of "
+    "the validity path; C01's premises for the valid edge.",
+    "cell table + provenance of disjunction + fold over equality/order patterns + dominance of the validity gate", "5-C04")
+reg("C05", rank.check_C05, "other",
+    "Static panic-site inventory over all ranking entry points of Five/Six/Seven with every slot abstracted to `one of the "
+    "53 constants` (at most one rank bit, 6-bit prime field — derived from the constants): table indexes discharged over "
+    "every rank mask of at most five bits, products by interval bounds, the product search by exact abstract reachability "
+    "over every key cell including below/between/above the table (no failing assert, termination, result in range), "
+    "Six/Seven compositionally; blank five folds to 0 = Invalid. Thorough tier repeats the search on the overflow-checks=off MIR.",
+    "panic-site inventory + abstract interpretation (bit-field/interval) + abstract reachability of the search loop", "5-C05",
+    needs_unchecked=True)
+reg("C08", rank.check_C08, "other",
+    "Static: card shift summary folded over the 53 words (rank kept, suit cycle); every container's shift is slot-wise by "
+    "provenance; the five-card value reaches suit bits only through the all-same-suit formula, which is invariant under all "
+    "24 permutations of the suit-bit indices; six/seven select by index and minimise (loop rule).",
+    "fold over 53 words + provenance + non-interference of suit bits (formula symmetry)", "5-C08")
+reg("C09", rank.check_C09, "other",
+    "Static: both candidate loops satisfy the best-of transformer rule over complete tables and call the same five-card "
+    "ranking, which is slot-symmetric (F); hence seven = min over its 21 fives, six = min over its 6 fives, and the "
+    "monotonicity chain follows by set algebra (recorded assumption).",
+    "loop-body transformer rule + table completeness + slot symmetry", "5-C09")
